@@ -2,6 +2,7 @@
  *
  *   script o<k> <key> <ops>   store a heart_beat script in /c11/reg (read back by the LPC objects)
  *   do o<k> <op>              apply do_op(<op>) in o<k>            (top-level operation)
+ *   cotick o<k>:<ops> ...     schedule call_outs (delay 1) whose callbacks run <ops>, then one tick with TIMER_FLAG_CALLOUT
  *   tflags <n>                MAIN_OPTION (timer_flags) = n (bit TIMER_FLAG_HEARTBEAT decides whether a tick runs a round)
  *   tick                      one timer tick: the real call_heart_beat() through the hook verif_tick(),
  *                             wrapped in the same error recovery as backend() (save_context / setjmp /
@@ -169,6 +170,7 @@ void __wrap_remove_destructed_objects (void)
 
 #define C11_MAXPASS 5		/* further passes with a round inside one `tick` (mirrored by the model: morePasses) */
 static int c11_round_in_pass = 0;
+static int c11_tickend_printed = 0;	/* `tickend` already printed in front of the call_out dispatch */
 
 int __wrap_do_comm_polling (struct timeval *timeout)
 {
@@ -176,6 +178,7 @@ int __wrap_do_comm_polling (struct timeval *timeout)
   if (!c11_in_tick)
     return 0;
   c11_round_in_pass = 0;
+  c11_tickend_printed = 0;
   if (++c11_polls == 1)
     {
       MAIN_OPTION (timer_flags) = c11_tflags;
@@ -200,6 +203,19 @@ int __wrap_do_comm_polling (struct timeval *timeout)
   return 0;
 }
 
+/* call_heart_beat() -> call_out(): the round is over when the dispatch of the call_outs begins */
+void __real_call_out (void);
+
+void __wrap_call_out (void)
+{
+  if (c11_in_tick && c11_round_in_pass && !c11_tickend_printed)
+    {
+      vh_out ("tickend");
+      c11_tickend_printed = 1;
+    }
+  __real_call_out ();
+}
+
 static int c11_hook (void)
 {
   return 1;
@@ -222,7 +238,7 @@ static void c11_tick (void)
   c11_in_tick = 0;
   verif_backend_cycle_hook = 0;
   MAIN_OPTION (timer_flags) = c11_tflags;
-  if (c11_round_in_pass)
+  if (c11_round_in_pass && !c11_tickend_printed)
     vh_out ("tickend");		/* the pass that reached the hook had called call_heart_beat() */
   /* command_giver after the pass (cleared after every heart_beat call, restored by restore_context after an error) */
   vh_out ("cg %s", command_giver ? c11_oid_of (command_giver) : "-");
@@ -236,6 +252,33 @@ static int c11_cmd (char *line)
   if (!strcmp (line, "tick"))
     {
       c11_tick ();
+      return 1;
+    }
+  if (!strncmp (line, "cotick", 6) && (line[6] == 0 || line[6] == ' '))
+    {
+      /* cotick o<k>:<ops> ...  schedule call_out ("co", 1, <ops>) in the named objects (through their LPC function sched),
+         then one tick with TIMER_FLAG_CALLOUT set for its duration: call_heart_beat() dispatches them after the round */
+      char copy[8192], *tok[64];
+      int n, saved = c11_tflags;
+      snprintf (copy, sizeof copy, "%s", line);
+      n = vh_split (copy, tok, 64);
+      for (int i = 1; i < n; i++)
+        {
+          char *colon = strchr (tok[i], ':');
+          int known = 0;
+          object_t *ob;
+          char *a[1];
+          if (!colon)
+            return 0;
+          *colon = 0;
+          ob = c11_lookup (tok[i], &known);
+          a[0] = colon + 1;
+          if (ob)
+            vh_apply_str (ob, "sched", 1, a, 0, 0);
+        }
+      c11_tflags |= TIMER_FLAG_CALLOUT;
+      c11_tick ();
+      MAIN_OPTION (timer_flags) = c11_tflags = saved;
       return 1;
     }
   if (!strncmp (line, "tflags ", 7))
